@@ -120,9 +120,14 @@ theorem keyOwnedLoop_live (q : Pod) (uid : Nat) (hne : uid ≠ q.uid) : ∀ (l :
 theorem not_liveKey_of_checks (s : State) (h : Inv s) (k : Key) (ip : IP) (uid : Nat)
     (hrec : (∃ r, Tbl.get s.alloc ip = some r ∧ r.key = k ∧ r.uid = uid) ∨ (Tbl.get s.alloc ip = none ∧ k = Key.empty))
     (hrun : ¬ (podRunning Facts.good s k.pod k.ns uid).2 = true)
-    (hko : ¬ (keyOwnedByRunningPod Facts.good (podRunning Facts.good s k.pod k.ns uid).1 k uid).2 = true) :
-    ¬ LiveKey s.pods k := by
-  rintro ⟨q, hq, hkq⟩
+    (hko : ¬ (keyOwnedByRunningPod Facts.good (podRunning Facts.good s k.pod k.ns uid).1 k uid).2 = true)
+    (hna : k.isAdmin = false) : ¬ LiveKey s.pods k := by
+  intro hl
+  have hl' : ∃ q, LiveBound s.pods q ∧ keyOf q = k := by
+    rcases hl with hl | hadm
+    · exact hl
+    · rw [hna] at hadm; cases hadm
+  obtain ⟨q, hq, hkq⟩ := hl'
   have wf := (h.podsWF _ q hq.1).2.2.2
   rcases hrec with ⟨r, hr, hrk, hru⟩ | ⟨_, hke⟩
   · by_cases hu : uid = 0 ∨ uid = q.uid
@@ -185,7 +190,14 @@ theorem resyncAct_spec (s1 : State) (ip : IP) (k : Key) (r : Rec) (h1 : Inv s1) 
     exact ⟨t.1, t.2.1, UnassignsWithin.of_plog_eq _ t.2.2⟩
 
 /-- one checklist entry of the resync pass -/
-theorem resyncOne_spec (s : State) (ip : IP) (r0 : Rec) (h : Inv s) :
+theorem inChecklist_not_admin (r : Rec) (h : inChecklist r = true) : r.key.isAdmin = false := by
+  unfold inChecklist at h
+  unfold Key.isAdmin
+  simp only [Bool.and_eq_true, decide_eq_true_eq] at h
+  have : r.key.pod ≠ "" := by simpa using h.1.1.2
+  simp [this]
+
+theorem resyncOne_spec (s : State) (ip : IP) (r0 : Rec) (h : Inv s) (hna : r0.key.isAdmin = false) :
     Inv (resyncOne Facts.good s ip r0) ∧ Frame s (resyncOne Facts.good s ip r0) ∧
       UnassignsWithin s (resyncOne Facts.good s ip r0) (NoLive s.pods) := by
   unfold resyncOne
@@ -211,14 +223,15 @@ theorem resyncOne_spec (s : State) (ip : IP) (r0 : Rec) (h : Inv s) :
         · exact ⟨hko, pq.1.frame.trans kq.1.frame, lg1⟩
         · rename_i hown
           have hnl : ¬ LiveKey s.pods r0.key :=
-            not_liveKey_of_checks s h r0.key ip r.uid (Or.inl ⟨r, hr, hk', rfl⟩) hrun hown
+            not_liveKey_of_checks s h r0.key ip r.uid (Or.inl ⟨r, hr, hk', rfl⟩) hrun hown hna
           have fr := pq.1.frame.trans kq.1.frame
           have a := resyncAct_spec _ ip r0.key r hko (by rw [fr.pods]; exact hnl)
             (by rw [fr.pods]; exact noLive_of_key h.safe hr (by rw [hk']; exact hnl))
           rw [fr.pods] at a
           exact ⟨a.1, fr.trans a.2.1, lg1.trans a.2.2⟩
 
-theorem resyncLoop_spec (snap : Tbl IP Rec) : ∀ (order : List IP) (s : State), Inv s →
+theorem resyncLoop_spec (snap : Tbl IP Rec) (hsnap : ∀ ip r0, Tbl.get snap ip = some r0 → r0.key.isAdmin = false) :
+    ∀ (order : List IP) (s : State), Inv s →
     Inv (resyncLoop Facts.good snap s order) ∧ Frame s (resyncLoop Facts.good snap s order) ∧
       UnassignsWithin s (resyncLoop Facts.good snap s order) (NoLive s.pods) := by
   intro order
@@ -229,8 +242,8 @@ theorem resyncLoop_spec (snap : Tbl IP Rec) : ∀ (order : List IP) (s : State),
     unfold resyncLoop
     split
     · exact ih s h
-    · rename_i r0 _
-      have o := resyncOne_spec s ip r0 h
+    · rename_i r0 hg0
+      have o := resyncOne_spec s ip r0 h (hsnap ip r0 hg0)
       have r := ih _ o.1
       refine ⟨r.1, o.2.1.trans r.2.1, o.2.2.trans ?_⟩
       have := r.2.2
@@ -244,7 +257,10 @@ theorem resync_spec (s : State) (order : List IP) (h : Inv s) :
   dsimp only
   split
   · exact ⟨h, rfl, UnassignsWithin.refl s _⟩
-  · have := resyncLoop_spec (List.filter (fun e => inChecklist e.2) s.alloc) order s h
+  · have := resyncLoop_spec (List.filter (fun e => inChecklist e.2) s.alloc) (fun ip r0 hg => by
+      have hm := Tbl.get_mem hg
+      simp only [List.mem_filter] at hm
+      exact inChecklist_not_admin r0 hm.2) order s h
     exact ⟨this.1, this.2.1.pods, this.2.2⟩
 
 theorem inv_resync (s : State) (order : List IP) (f pf : Nat) (h : Inv s) :
@@ -305,7 +321,7 @@ theorem releaseAct_spec (s1 : State) (ip : IP) (k : Key) (uid : Nat) (node : Str
       exact (lg1.trans pre.2.2).trans (UnassignsWithin.of_plog_eq _ (release_plog _ _ _))
     · exact ⟨pre.1, (kq.1.frame.trans pre.2.1).pods, lg1.trans pre.2.2⟩
 
-theorem apiRelease_spec (s : State) (ip : IP) (k : Key) (h : Inv s) :
+theorem apiRelease_spec (s : State) (ip : IP) (k : Key) (h : Inv s) (hna : k.isAdmin = false) :
     Inv (apiRelease Facts.good s ip k).1 ∧ (apiRelease Facts.good s ip k).1.pods = s.pods ∧
       UnassignsWithin s (apiRelease Facts.good s ip k).1 (NoLive s.pods) := by
   unfold apiRelease
@@ -340,12 +356,16 @@ theorem apiRelease_spec (s : State) (ip : IP) (k : Key) (h : Inv s) :
           exact noLive_of_key h.safe hg (by rw [hkey']; exact hnl)
       have a := releaseAct_spec (podRunning Facts.good s k.pod k.ns (((Tbl.get s.alloc ip).map (·.uid)).getD 0)).1 ip k
         (((Tbl.get s.alloc ip).map (·.uid)).getD 0) (((Tbl.get s.alloc ip).map (·.node)).getD "") hpr
-        (fun hown => by rw [pq.1.frame.pods]; exact not_liveKey_of_checks s h k ip _ hrec hrun hown)
+        (fun hown => by rw [pq.1.frame.pods]; exact not_liveKey_of_checks s h k ip _ hrec hrun hown hna)
         (fun hn => by rw [pq.1.frame.pods] at hn ⊢; exact hnlip hn)
       rw [pq.1.frame.pods] at a
       exact ⟨a.1, a.2.1, lg0.trans a.2.2⟩
 
-theorem inv_apiRelease (s : State) (ip : IP) (k : Key) (f pf : Nat) (h : Inv s) :
-    Inv (step Facts.good s (.apiRelease ip k f pf)).1 := (apiRelease_spec _ ip k (inv_withFaults s f pf h)).1
+theorem assumed_apiRelease {s : State} {ip : IP} {k : Key} {f pf : Nat} (ha : assumed s (.apiRelease ip k f pf) = true) :
+    k.isAdmin = false := by
+  simpa [assumed] using ha
+
+theorem inv_apiRelease (s : State) (ip : IP) (k : Key) (f pf : Nat) (h : Inv s) (hna : k.isAdmin = false) :
+    Inv (step Facts.good s (.apiRelease ip k f pf)).1 := (apiRelease_spec _ ip k (inv_withFaults s f pf h) hna).1
 
 end Galaxy.Plugin
